@@ -155,7 +155,7 @@ def build(ctx, cap):
         mode = rng.choice(["write", "append"])
         ops = gen_case(rng, fmt, nt, order, cap)
         before = {t: "old\n" for t in names[:5]} if mode == "append" else {}
-        cases.append({"mode": mode, "fmt": fmt, "opts": opts, "ops": ops, "before": before, "pattern": "writers-beyond-capacity"})
+        cases.append({"mode": mode, "fmt": fmt, "opts": opts, "ops": ops, "before": before, "pattern": "writers-beyond-capacity", "cap": cap})
         ctx.dist("writers:beyond-capacity:" + fmt)
     return cases
 
@@ -170,7 +170,19 @@ def oracle(ctx, c, budget):
     n = 0
     targets = sorted(routed)
     if len(targets) > 6:
-        targets = targets[:1] + ctx.rng.sample(targets[1:], 2)
+        # beyond the capacity: look first at targets whose handler is SUSPENDED when Close() is called (evicted and not used again --
+        # LRU simulated here), they get their end-of-stream text only from Close(); plus one open and one random target
+        from collections import OrderedDict
+        lru, cap = OrderedDict(), c.get("cap", 256)
+        for t, _, _ in c["ops"]:
+            if t in lru:
+                lru.move_to_end(t)
+            else:
+                if len(lru) >= cap and c["mode"] != "pipe":
+                    lru.popitem(last=False)
+                lru[t] = 1
+        susp = [t for t in targets if t not in lru]
+        targets = susp[:1] + (ctx.rng.sample(susp[1:], min(2, len(susp) - 1)) if len(susp) > 1 else []) + [next(iter(lru))] + [ctx.rng.choice(targets)]
     elif ctx.tier == "quick":
         targets = [ctx.rng.choice(targets)]           # one target per small history (each comparison is one mlr run)
     for t in targets:
